@@ -305,6 +305,9 @@ struct StorageResolver<'a, B, OC, SC, L> {
     chain: Mutex<Vec<(std::thread::ThreadId, PlainRef)>>,
     // loads set off by the outermost `get` each thread is in
     work: Mutex<HashMap<std::thread::ThreadId, usize>>,
+    // what those loads produced: an object reachable along several paths is loaded once per
+    // outermost call even without an object cache (dropped when that call returns)
+    memo: Mutex<HashMap<std::thread::ThreadId, HashMap<(PlainRef, &'static str), Result<AnySync, Arc<PdfError>>>>>,
 }
 impl<'a, B, OC, SC, L> StorageResolver<'a, B, OC, SC, L> {
     pub fn new(storage: &'a Storage<B, OC, SC, L>) -> Self {
@@ -312,6 +315,7 @@ impl<'a, B, OC, SC, L> StorageResolver<'a, B, OC, SC, L> {
             storage,
             chain: Mutex::new(vec![]),
             work: Mutex::new(HashMap::new()),
+            memo: Mutex::new(HashMap::new()),
         }
     }
 }
@@ -393,6 +397,7 @@ where
             assert_eq!(innermost.map(|i| chain.remove(i).1), Some(key));
             if !chain.iter().any(|&(t, _)| t == thread) {
                 self.work.lock().unwrap().remove(&thread);
+                self.memo.lock().unwrap().remove(&thread);
             }
         });
         
@@ -431,14 +436,22 @@ where
             });
             #[cfg(pdf_verif)]
             crate::verif::yield_point("get:compute-start", key.id);
-            match self.resolve(key).and_then(|p| T::from_primitive(p, self)) {
+            let memo_key = (key, std::any::type_name::<T>());
+            if let Some(done) = self.memo.lock().unwrap().get(&thread).and_then(|m| m.get(&memo_key)) {
+                // (the same object read as the same type earlier in this call: trying again would only repeat it)
+                failed_here.set(done.is_err());
+                return done.clone();
+            }
+            let result = match self.resolve(key).and_then(|p| T::from_primitive(p, self)) {
                 Ok(obj) => Ok(AnySync::new(Shared::new(obj))),
                 Err(e) => {
                     warn!("failed to decode object {} as {}", key.id, std::any::type_name::<T>());
                     failed_here.set(true);
                     Err(Arc::new(e))
                 }
-            }
+            };
+            self.memo.lock().unwrap().entry(thread).or_default().insert(memo_key, result.clone());
+            result
         });
         match res {
             Ok(any) => {
